@@ -77,7 +77,7 @@ def run_unit(seed=None, unit=None, tier="quick", stats=None, prop=PROP):
         # closing while a response is being computed is the interesting instant: the consumer
         # waits for response k in a task of its own and closes the stream from outside
         al = alloc.SimAllocator("fresh", st)
-        disp = Dispatcher(sim, world, events, planners)
+        disp = Dispatcher(sim, world, events, planners, sp.none_event)
         sst = SourceState()
         src_exc = make_exc(sp.exc, "SRC", ())
         out = {"kind": None, "responses": 0, "waiting": None, "closed": False, "error": None,
